@@ -42,6 +42,7 @@ pub struct Emphasis {
     pub twins: u64,    // eighths: how often identical coins are created and spent together
     pub epoch_edges: u64, // eighths: how often a fabricated history starts next to a staking-epoch boundary
     pub faucets: u64,  // weight of faucet transactions
+    pub tip_edges: u64, // eighths: how often a fabricated history starts one or two blocks below a TIP activation height
     pub pool_ops: u64, // weight of swap/deposit/withdraw
     pub stake_ops: u64,
     pub mint_ops: u64,
@@ -506,6 +507,16 @@ impl<'a> Hist<'a> {
         };
         let mut tx = tx?;
         let mut label = label.to_string();
+        // nothing goes in: no inputs, no fee, no outputs (or, for a mint, only the ERG it claims)
+        if em.mutate > 0 && r.chance(if tx.kind == TxKind::DoscMint { 4 } else { 1 }, 40) {
+            tx.inputs.clear();
+            tx.fee = CoinValue(0);
+            let keep_erg = tx.kind == TxKind::DoscMint && r.chance(1, 2);
+            tx.outputs.retain(|o| keep_erg && o.denom == Denom::Erg);
+            tx.sigs.clear();
+            self.bump("tx:inputless");
+            return Some((tx, format!("{}+inputless", label)));
+        }
         // an ordinary, fully authorised spend relabelled as a faucet
         if em.mutate > 0 && tx.kind == TxKind::Normal && r.chance(1, 25) {
             tx.kind = TxKind::Faucet;
@@ -624,7 +635,7 @@ impl<'a> Hist<'a> {
         // key order and requests in hash order: interleavings matter)
         let cluster = em.pool_ops >= 30 && r.chance(1, 3);
         let n = if cluster { 3 + r.below(4) } else { n };
-        let cluster_em = Emphasis { mutate: 0, pool_ops: 1000, stake_ops: 0, mint_ops: 0, batches: 0, blocks: 0, chain_ops: false, twins: 2, epoch_edges: 0, faucets: 0 };
+        let cluster_em = Emphasis { mutate: 0, pool_ops: 1000, stake_ops: 0, mint_ops: 0, batches: 0, blocks: 0, chain_ops: false, twins: 2, epoch_edges: 0, faucets: 0, tip_edges: 0 };
         for _ in 0..n {
             let em_here = if cluster { &cluster_em } else { em };
             if let Some((tx, label)) = self.gen_tx(r, &scratch_name, em_here) {
@@ -754,6 +765,16 @@ pub fn rand_fab(r: &mut Rng, wallet: &mut Wallet, em: &Emphasis) -> FabSpec {
         NetID::Testnet => *r.pick(&[3u64, 498, 499, 500, 199999, 499999, 500000, 899999, 978391, 978392]),
         _ => *r.pick(&[1u64, 7, 199998, 199999, 200000, 399999]),
     };
+    // one or two blocks below an activation height of the network (so that the history crosses it)
+    let (network, height) = if r.chance(em.tip_edges, 8) {
+        if r.chance(1, 2) {
+            (NetID::Testnet, *r.pick(&[497u64, 498, 498, 499]))
+        } else {
+            (NetID::Mainnet, *r.pick(&[42698u64, 42699, 179998, 179999, 829998, 829998, 829999, 949998, 949999, 978390, 978391, 1047998, 1047999]))
+        }
+    } else {
+        (network, height)
+    };
     // the block built on a state at height k*STAKE_EPOCH - 1 is the first block of epoch k
     let height = if r.chance(em.epoch_edges, 8) { *r.pick(&[199_998u64, 199_999, 199_999, 200_000, 399_999, 399_999, 1_999_999, 599_999]) } else { height };
     let t906 = tip906_active(network, height);
@@ -812,7 +833,7 @@ pub fn rand_fab(r: &mut Rng, wallet: &mut Wallet, em: &Emphasis) -> FabSpec {
     FabSpec {
         network,
         height,
-        fee_pool: *r.pick(&[0u128, 1 << 16, 6553600000000, 1 << 100]),
+        fee_pool: *r.pick(&[0u128, 1 << 16, 6553600000000, 1 << 100, (1 << 120) - 5, (1 << 120) + 12345, 1 << 123]),
         fee_multiplier: *r.pick(&[0u128, 1, 100, 65536, 1_000_000, 1 << 40]),
         // small speeds make rewards non-zero at the small difficulties proofs can be generated for
         dosc_speed: if r.chance(1, 2) { 1 + r.below(40) as u128 } else { 1_000_000 + r.below(100) as u128 },
@@ -839,7 +860,7 @@ pub fn rand_genesis(r: &mut Rng, wallet: &mut Wallet) -> GenesisConfig {
         network,
         init_coindata: crate::txgen::out(addr, 1u128 << (40 + r.below(60)), Denom::Mel),
         stakes,
-        init_fee_pool: CoinValue(*r.pick(&[0u128, 6553600000000])),
+        init_fee_pool: CoinValue(*r.pick(&[0u128, 6553600000000, (1 << 120) + 777])),
         init_fee_multiplier: *r.pick(&[0u128, 1, 1000, 1_000_000]),
     }
 }
@@ -1105,6 +1126,10 @@ pub fn run(r: &mut Rng, n: usize, em: &Emphasis, out: &mut Out) -> BTreeMap<Stri
             use std::io::Write;
             let _ = writeln!(f, "{} {} {}", i, fork_seed, out.lines);
             let _ = f.flush();
+        }
+        // self-test of the crash localisation in tools/check.py
+        if std::env::var("VERIF_TEST_ABORT_AT").ok().and_then(|v| v.parse::<usize>().ok()) == Some(i) || std::env::var("VERIF_TEST_ABORT_SEED").ok().and_then(|v| v.parse::<u64>().ok()) == Some(fork_seed) {
+            std::process::abort();
         }
         let mut rr = Rng::new(fork_seed);
         history(&mut rr, &mut w, out, em, &mut stats);
